@@ -6,6 +6,7 @@ CONSTANTS
   FailNs = {1}
   PruneTs = {0, 150, 350}
   RgsSnaps = {}
+  ResolveCs = {}
   WithReload = TRUE
 CONSTRAINT Bound
 VIEW View
